@@ -6,6 +6,8 @@
  * file, you can obtain one at https://mozilla.org/MPL/2.0/.
  */
 
+#include <vector>
+
 #include "cdns_decoder.h"
 
 CDNS::CborType CDNS::CdnsDecoder::peek_type()
@@ -187,78 +189,102 @@ void CDNS::CdnsDecoder::read_break()
 
 void CDNS::CdnsDecoder::skip_item()
 {
-    CborType cbor_type;
-    uint8_t item_length;
-    read_cbor_type(cbor_type, item_length);
+    // Data items still to be skipped on each open nesting level. The levels are kept on
+    // the heap so that deeply nested input can't exhaust the call stack.
+    struct Level {
+        uint64_t left; // number of items left on this level (definite length only)
+        bool indef;    // level is closed by the "break" stop code
+        bool map;      // indefinite length map: items come in key/value pairs
+        bool value;    // indefinite length map: next item is the value of a pair
+    };
 
-    switch (cbor_type) {
-        case CborType::UNSIGNED:
-        case CborType::NEGATIVE:
-            if (item_length >= 28) {
-                throw CdnsDecoderException(("Unsupported CBOR additional information value: " +
-                                            std::to_string(item_length)).c_str());
-            }
-            read_int(item_length);
-            break;
+    std::vector<Level> levels;
+    levels.push_back({1, false, false, false});
 
-        case CborType::TAG:
-            if (item_length >= 28) {
-                throw CdnsDecoderException(("Unsupported CBOR additional information value: " +
-                                            std::to_string(item_length)).c_str());
+    while (!levels.empty()) {
+        Level& level = levels.back();
+        if (level.indef) {
+            if (peek_type() == CborType::BREAK) {
+                if (level.map && level.value)
+                    throw CdnsDecoderException("Indefinite length map is missing value of the last key");
+                m_p++;
+                levels.pop_back();
+                continue;
             }
-            read_int(item_length);
-            // A tag is followed by the data item it applies to
-            skip_item();
-            break;
+            level.value = !level.value;
+        }
+        else {
+            if (level.left == 0) {
+                levels.pop_back();
+                continue;
+            }
+            level.left--;
+        }
 
-        case CborType::SIMPLE:
-            if (item_length >= 28 && item_length <= 30) {
-                throw CdnsDecoderException(("Unsupported CBOR additional information value: " +
-                                            std::to_string(item_length)).c_str());
-            }
-            read_int(item_length);
-            break;
+        CborType cbor_type;
+        uint8_t item_length;
+        read_cbor_type(cbor_type, item_length);
 
-        case CborType::BYTE_STRING:
-        case CborType::TEXT_STRING:
-            if (item_length >= 28 && item_length <= 30) {
-                throw CdnsDecoderException(("Unsupported CBOR additional information value: " +
-                                            std::to_string(item_length)).c_str());
-            }
-            read_string(cbor_type, read_int(item_length), item_length == 31 ? true : false);
-            break;
-
-        case CborType::ARRAY:
-        case CborType::MAP:
-            if (item_length >= 28 && item_length <= 30) {
-                throw CdnsDecoderException(("Unsupported CBOR additional information value: " +
-                                            std::to_string(item_length)).c_str());
-            }
-            if (item_length == 31) {
-                while(true) {
-                    if (peek_type() == CborType::BREAK) {
-                        m_p++;
-                        break;
-                    }
-                    skip_item();
-                    if (cbor_type == CborType::MAP)
-                        skip_item();
+        switch (cbor_type) {
+            case CborType::UNSIGNED:
+            case CborType::NEGATIVE:
+                if (item_length >= 28) {
+                    throw CdnsDecoderException(("Unsupported CBOR additional information value: " +
+                                                std::to_string(item_length)).c_str());
                 }
-            }
-            else {
-                uint64_t item_count = read_int(item_length);
-                for (unsigned i = 0; i < item_count; i++) {
-                    skip_item();
-                    if (cbor_type == CborType::MAP)
-                        skip_item();
-                }
-            }
-            break;
+                read_int(item_length);
+                break;
 
-        default:
-            throw CdnsDecoderException(("Unknown CBOR major type " +
-                                        std::to_string(static_cast<uint8_t>(cbor_type) >> 5)).c_str());
-            break;
+            case CborType::TAG:
+                if (item_length >= 28) {
+                    throw CdnsDecoderException(("Unsupported CBOR additional information value: " +
+                                                std::to_string(item_length)).c_str());
+                }
+                read_int(item_length);
+                // A tag is followed by the data item it applies to
+                levels.push_back({1, false, false, false});
+                break;
+
+            case CborType::SIMPLE:
+                if (item_length >= 28 && item_length <= 30) {
+                    throw CdnsDecoderException(("Unsupported CBOR additional information value: " +
+                                                std::to_string(item_length)).c_str());
+                }
+                read_int(item_length);
+                break;
+
+            case CborType::BYTE_STRING:
+            case CborType::TEXT_STRING:
+                if (item_length >= 28 && item_length <= 30) {
+                    throw CdnsDecoderException(("Unsupported CBOR additional information value: " +
+                                                std::to_string(item_length)).c_str());
+                }
+                read_string(cbor_type, read_int(item_length), item_length == 31 ? true : false);
+                break;
+
+            case CborType::ARRAY:
+            case CborType::MAP:
+                if (item_length >= 28 && item_length <= 30) {
+                    throw CdnsDecoderException(("Unsupported CBOR additional information value: " +
+                                                std::to_string(item_length)).c_str());
+                }
+                if (item_length == 31) {
+                    levels.push_back({0, true, cbor_type == CborType::MAP, false});
+                }
+                else {
+                    uint64_t item_count = read_int(item_length);
+                    levels.push_back({item_count, false, false, false});
+                    // Map holds "item_count" keys and "item_count" values
+                    if (cbor_type == CborType::MAP)
+                        levels.push_back({item_count, false, false, false});
+                }
+                break;
+
+            default:
+                throw CdnsDecoderException(("Unknown CBOR major type " +
+                                            std::to_string(static_cast<uint8_t>(cbor_type) >> 5)).c_str());
+                break;
+        }
     }
 }
 
